@@ -9,6 +9,8 @@ package pipe
 //vf:job C09 quick VF_C09_FileReadStep blen=1..3
 //vf:job C09 quick VF_C09_FileWriteStep blen=1..3
 //vf:job C09 quick VF_C09_Sequential variant=0..5
+//vf:job C09 quick VF_C09_WrapNonPow2 file=0..1
+//vf:replayE C09 VF_C09_WrapNonPow2
 //vf:job C09 quick VF_C09_Proto writes=1..2 wn=1..2 rn=1..3 close=0..1
 //vf:job C09 quick VF_C09_ProtoReaderCloses wn=1..2
 //vf:job C09 thorough VF_C09_Proto writes=2..2 wn=3..3 rn=1..3 close=0..1
@@ -292,6 +294,57 @@ func VF_C09_Sequential() {
 		vfAssert(n == 4096 && err == nil && out[0] == d[0] && out[4095] == d[1], "capacity-sized read")
 	}
 	vfAssertTwin(d[0] == d[1], "twin")
+}
+
+// a ring whose size is aligned but not a power of two (3 units): chunks that wrap the ring several
+// times arrive intact (positions concrete, marker bytes symbolic)
+func VF_C09_WrapNonPow2() {
+	var r Reader
+	var w Writer
+	size := 3 * BuffSizeAlign
+	if vfParam("file", 0) == 0 {
+		r, w = NewSize(size)
+	} else {
+		store := make([]byte, size)
+		p := &fileBuffer{f: vfInstallFile(store), size: uint64(size)}
+		r, w = newPipe(p)
+	}
+	m := vfBytes("m", 8)
+	chunk := func(n int, a, b byte) []byte {
+		c := make([]byte, n)
+		c[0], c[n-1] = a, b
+		return c
+	}
+	readAll := func(n int) []byte {
+		out := make([]byte, 0, n)
+		buf := make([]byte, n)
+		for len(out) < n {
+			k, err := r.Read(buf[:n-len(out)])
+			vfAssert(err == nil && k > 0, "read from a non-empty open pipe failed")
+			if err != nil || k == 0 {
+				return out
+			}
+			out = append(out, buf[:k]...)
+		}
+		return out
+	}
+	// 5000 in, 3000 out (positions no longer at the ring start), then two chunks that cross the end of the ring
+	n, err := w.Write(chunk(5000, m[0], m[1]))
+	vfAssert(n == 5000 && err == nil, "write 1")
+	o1 := readAll(3000)
+	n, err = w.Write(chunk(9000, m[2], m[3]))
+	vfAssert(n == 9000 && err == nil, "write 2")
+	o2 := readAll(2000 + 9000)
+	n, err = w.Write(chunk(12000, m[4], m[5]))
+	vfAssert(n == 12000 && err == nil, "write 3")
+	o3 := readAll(12000)
+	ok := len(o1) == 3000 && len(o2) == 11000 && len(o3) == 12000
+	vfAssert(ok, "byte counts")
+	if ok {
+		vfAssert(o1[0] == m[0] && o2[1999] == m[1] && o2[2000] == m[2] && o2[10999] == m[3] && o3[0] == m[4] && o3[11999] == m[5], "bytes around the wrap points of a 3-unit ring are not the written ones")
+		vfAssert(o1[1] == 0 && o2[5000] == 0 && o3[6000] == 0, "filler bytes changed")
+	}
+	vfAssertTwin(!ok, "twin")
 }
 
 // ---- protocol runs: one writer goroutine, reader in the main goroutine, every interleaving
